@@ -104,6 +104,27 @@ pub fn c06(out: &mut Vec<String>, rng: &mut Rng, tier: &str) {
             u.stats_a().sample_std_dev().enc(), u.stats_b().sample_std_dev().enc()
         ));
     }
+    // 4b. sweeps at a fixed confidence in which the effective dof moves slowly (consecutive calls
+    // differ by a fraction of a degree of freedom): the answer must not depend on the call history
+    for i in 0..(if tier == "thorough" { 40 } else { 8 }) {
+        let na = rng.range(4, 30) as usize;
+        let nb = rng.range(4, 30) as usize;
+        let xs = sample_f64(rng, na, 4, 10.0);
+        let ys0 = sample_f64(rng, nb, 4, 10.0);
+        let conf = conf_of(i as u64, level_grid(i * 13 + 3));
+        for step in 0..25 {
+            let f = (1.03f64).powi(step);
+            let ys: Vec<f64> = ys0.iter().map(|y| y * f).collect();
+            let u = Unpaired::<f64>::from_iter(&xs, &ys).unwrap();
+            out.push(format!(
+                "C06 ucrit f {} {} {} => {} | {} {} {} {}",
+                enc_conf(&conf), enc_list(&xs), enc_list(&ys),
+                guarded(|| enc_cires(&u.ci_mean(conf))),
+                u.stats_a().sample_mean().enc(), u.stats_b().sample_mean().enc(),
+                u.stats_a().sample_std_dev().enc(), u.stats_b().sample_std_dev().enc()
+            ));
+        }
+    }
 }
 
 #[allow(dead_code)]
